@@ -7,6 +7,8 @@ import EupsModel.Lemmas.PathActEups
 import EupsModel.Lemmas.PathAlgRun
 import EupsModel.Lemmas.PathAlgFlags
 import EupsModel.Lemmas.PathActName
+import EupsModel.Lemmas.PathActFile
+import EupsModel.Lemmas.PathAlgNested
 /-! C12 — path-variable commands obey list algebra.  Property theorems only (helper lemmas live in
 `Lemmas/PathAlg.lean`, the model in `Model/PathAlg.lean`). -/
 namespace EupsModel.C12
@@ -465,6 +467,47 @@ theorem nested_reference_removed_example :
       = .ok [(Str.ofString "V", Str.ofString "a"), (Str.ofString "F", Str.ofString "${B}/n"),
          (Str.ofString "B", Str.ofString "/b")] := by decide
 
+
+
+/-- Two references in one value: each is replaced by the value of its own variable (the pinned code of round 0
+replaced both by the first one's: D22) — at the level of envSet. -/
+theorem envset_two_references (var pre keyA mid keyB post a b : Str) (env : Env)
+    (hpre : 36 ∉ pre) (hmid : 36 ∉ mid) (hpost : 36 ∉ post) (ha : 36 ∉ a) (hb : 36 ∉ b)
+    (hkA : GoodKey keyA) (hkB : GoodKey keyB)
+    (hA : env.get keyA = some a) (hB : env.get keyB = some b) (hne : pre ++ a ++ mid ++ b ++ post ≠ []) :
+    envSet true var (pre ++ (36 :: 123 :: keyA ++ 125 :: (mid ++ (36 :: 123 :: keyB ++ 125 :: post)))) env
+      = .ok (env.set var (pre ++ a ++ mid ++ b ++ post)) := by
+  have hnd : 36 ∉ pre ++ a ++ mid ++ b ++ post := by simp [hpre, hmid, hpost, ha, hb]
+  simp only [envSet, ↓reduceIte]
+  rw [expand_two_defined env pre keyA mid keyB post a b hpre hmid hpost hkA hkB hA hB]
+  cases h : pre ++ a ++ mid ++ b ++ post with
+  | nil => exact absurd h hne
+  | cons x xs =>
+    rw [h] at hnd
+    simp [setEnvI, interp_no_dollar env _ _ hnd]
+
+/-- A value written with a reference whose variable's value holds a reference itself (`${F}/bin` with `F = v1${B}v2`):
+setup and unsetup both act on the fully expanded element `pre v1 b v2 post` (repair of D123: the pinned code added it
+expanded and looked for it unexpanded). -/
+theorem path_nested_reference (c : Nat) (append fwd : Bool) (var pre keyF post v1 keyB v2 b : Str)
+    (oldl : List Str) (env : Env)
+    (hpre : 36 ∉ pre) (hpost : 36 ∉ post) (hv1 : 36 ∉ v1) (hv2 : 36 ∉ v2)
+    (hkF : GoodKey keyF) (hkB : 125 ∉ keyB)
+    (hF : env.get keyF = some (v1 ++ (36 :: 123 :: keyB ++ [125]) ++ v2)) (hB : env.get keyB = some b)
+    (hcv : c ∉ pre ++ (36 :: 123 :: keyF ++ [125]) ++ post)
+    (hold : ∀ e ∈ oldl, OldPiece c e) (hgood : GoodPiece c ((pre ++ v1) ++ b ++ (v2 ++ post)))
+    (henv : (env.get var).getD [] = join [c] oldl) :
+    envPrepend append fwd var (pre ++ (36 :: 123 :: keyF ++ [125]) ++ post) [c] env
+      = .ok (env.set var (join [c] (applyL append fwd [(pre ++ v1) ++ b ++ (v2 ++ post)] oldl))) := by
+  have hexp := expand_defined env pre keyF post _ hpre hpost hkF hF
+  have hw : pre ++ (v1 ++ (36 :: 123 :: keyB ++ [125]) ++ v2) ++ post
+      = (pre ++ v1) ++ (36 :: 123 :: keyB ++ [125]) ++ (v2 ++ post) := by simp [List.append_assoc]
+  have hint := interp_defined env (pre ++ v1) keyB (v2 ++ post) b
+    (by simp [hpre, hv1]) (by simp [hv2, hpost]) hkB hB
+  rw [← hw] at hint
+  exact envPrepend_lifts_nested c append fwd var _ _ _ oldl env hold hgood
+    (startsWith_not_mem c _ hcv) (endsWith_not_mem c _ hcv) hexp hint henv
+
 /-! ## `${EUPS_PATH[n]}` (`Lemmas/PathActEups.lean`; repair of D122) -/
 section EupsPath
 open EupsModel.PathAct
@@ -561,6 +604,39 @@ theorem run_aliases_frame (acts : List (Bool × PathAct.Act)) (s s' : PathAct.St
     (h : PathAct.run acts s = .ok s') (hal : ∀ a ∈ acts, ∀ key ws, a.2 ≠ .alias key ws) :
     s'.aliases = s.aliases :=
   PathAct.run_aliases_untouched acts s s' h hal
+
+
+/-! ## what `Product.getTable` hands out for a table file (`Lemmas/PathActFile.lean`) -/
+section File
+open EupsModel.PathAct
+
+/-- Lines other than envUnset all come out of the file, in order, with the older synonyms rewritten and the macros
+expanded in every argument. -/
+theorem table_file_lines_come_through (p : ProdInfo) (ep : Option Str) (acts : List (Bool × Act))
+    (h : ∀ a ∈ acts, ∀ v, a.2 ≠ .unset v) :
+    fromFile p ep acts = acts.map (fun a => (a.1, (a.2.mapArgs legacySyn).expandAll p ep)) :=
+  fromFile_no_unset p ep acts h
+
+/-- An envUnset line for a variable other than the product's own directory variable never comes out … -/
+theorem table_file_drops_foreign_unset (p : ProdInfo) (ep : Option Str) (fwd : Bool) (var : Str)
+    (rest : List (Bool × Act)) (h36 : 36 ∉ var)
+    (h1 : var ≠ Str.ofString "PRODUCT_DIR") (h2 : var ≠ upper p.name ++ Str.ofString "_DIR") :
+    fromFile p ep ((fwd, .unset var) :: rest) = fromFile p ep rest :=
+  fromFile_drops_foreign_unset p ep fwd var rest h36 h1 h2
+
+/-- … and `envUnset(PRODUCT_DIR)` comes out as the unsetting of `<NAME>_DIR`. -/
+theorem table_file_unset_product_dir (p : ProdInfo) (ep : Option Str) (fwd : Bool) (rest : List (Bool × Act))
+    (hn36 : 36 ∉ p.name) :
+    fromFile p ep ((fwd, .unset (Str.ofString "PRODUCT_DIR")) :: rest)
+      = (fwd, .unset (upper p.name ++ Str.ofString "_DIR")) :: fromFile p ep rest :=
+  fromFile_unset_product_dir p ep fwd rest hn36
+
+/-- The older synonym `${UPS_PROD_DIR}` is `${PRODUCT_DIR}` (`Table._rewrite`), wherever it stands in an argument. -/
+theorem legacy_ups_prod_dir (pre post : Str) (hpre : 36 ∉ pre) (hpost : 36 ∉ post) :
+    legacySyn (pre ++ lUPSPRODDIR ++ post) = pre ++ mDIR ++ post :=
+  legacySyn_ups_prod_dir pre post hpre hpost
+
+end File
 
 /-! ## delimiters of several characters, values of several elements (`Lemmas/PathAlgMulti.lean`) -/
 
